@@ -10,7 +10,7 @@ from concurrent.futures import ThreadPoolExecutor
 
 VERIF = "/verif"
 PY = "/venv/bin/python"
-EXTRA_CHECKS = {"C01-m1": ["C09"], "C01-m2": ["C03"], "C08-m1": ["C14"], "C19-m1": ["C07"], "C05-m1": ["C17"], "C12-m2": ["C10"], "C03-m1": ["C06", "C14"],
+EXTRA_CHECKS = {"C08b-m1": ["C01"], "C14b-m2": ["C15", "C07"], "C01-m1": ["C09"], "C01-m2": ["C03"], "C08-m1": ["C14"], "C19-m1": ["C07"], "C05-m1": ["C17"], "C12-m2": ["C10"], "C03-m1": ["C06", "C14"],
                 "C06-m1": ["C14", "C03"], "C14-m1": ["C06"], "C14-m2": ["C08"], "C04-m2": ["C07"], "C07-m1": ["C04"], "C13-m2": []}
 
 
@@ -25,7 +25,11 @@ def confirm(name, src, patch):
     bd = "/tmp/seedchk/build-%s" % name
     shutil.rmtree(bd, ignore_errors=True)
     sh(["git", "-C", "/repo", "worktree", "remove", "--force", wt])
-    rc, out = sh(["git", "-C", "/repo", "worktree", "add", "--detach", wt, "HEAD"])
+    for _try in range(5):
+        rc, out = sh(["git", "-C", "/repo", "worktree", "add", "--detach", wt, "HEAD"])
+        if rc == 0:
+            break
+        time.sleep(2)
     meta = {"name": name, "property": pid, "source": src, "repo_head": sh(["git", "-C", "/repo", "rev-parse", "--short", "HEAD"])[1].strip(), "confirmed_at": time.strftime("%Y-%m-%d %H:%M")}
     try:
         rc, out = sh(["git", "-C", wt, "apply", patch])
